@@ -11,7 +11,7 @@ FUNCTIONS = [
     "treebased.mutate / tree_crossover; GE / SGE / dSGE / stack mapping; grammar.get_weights",
 ]
 ASSUMPTIONS = [
-    "grammar snapshot = alternatives (dict of lists, by value and order), distanceToTerminal, recursive_prods, all_nodes, terminals, non_terminals, get_weights()",
+    "grammar snapshot = alternatives (dict of lists, by value and order), distanceToTerminal, recursive_prods, all_nodes, terminals, non_terminals, the weights and the @weight/@abstract attributes stored on the classes (read without calling get_weights)",
     "grammars: f5ctx (dependent refinement makes Var infeasible at top level -> backtracking), f6 (weights), f1, f4",
     "sequences of up to 2 (thorough 3) consecutive creations / operations on one grammar object",
 ]
@@ -25,8 +25,16 @@ def snapshot(g):
         "all_nodes": sorted(getattr(c, "__name__", repr(c)) for c in g.all_nodes),
         "terminals": sorted(getattr(c, "__name__", repr(c)) for c in g.terminals),
         "non_terminals": sorted(getattr(c, "__name__", repr(c)) for c in g.non_terminals),
-        "weights": {getattr(k, "__name__", repr(k)): v for k, v in g.get_weights().items()},
+        "weights": {getattr(k, "__name__", repr(k)): v for k, v in _peek_weights(g).items()},
+        # what the user declared on the classes (the @weight / @abstract attributes the grammar is built from)
+        "declared_class_attributes": {getattr(c, "__name__", repr(c)): dict(c.__dict__.get("__gengy__", {})) for c in g.all_nodes if isinstance(c, type) and c.__module__ != "builtins"},
     }
+
+
+def _peek_weights(g):
+    """the weights as get_weights() would report them, read WITHOUT calling it (reading must not be
+    what changes them)"""
+    return {c: (c.__dict__.get("__gengy__", {}) if isinstance(c, type) and c.__module__ != "builtins" else {}).get("weight", 1.0) for c in g.all_nodes}
 
 
 def h_readonly(ctx: Ctx, cfg):
@@ -37,6 +45,7 @@ def h_readonly(ctx: Ctx, cfg):
 
     from vf.engine.sym import FuelExhausted, ReplayMismatch
 
+    foreign = 0
     for _ in range(cfg.get("rounds", 1)):
         try:
             synth.pipeline(ctx, cfg, lambda *a: None, fxg=(fx, g), r=r)
@@ -44,7 +53,12 @@ def h_readonly(ctx: Ctx, cfg):
             raise
         except Exception as e:  # operations that fail (with whatever exception) must leave the grammar alone too
             ctx.note("operation_failed_with", type(e).__name__)
-    ctx.reached()
+            foreign += 1
+    if foreign == 0:
+        # vacuity guard: a path on which the operation died with a foreign exception still has to
+        # leave the grammar alone, but only paths on which it ran (or failed the library's way) prove
+        # that the harness reaches the code under test
+        ctx.reached()
     after = ctx.concrete(snapshot, g)
     for key in before:
         ctx.require(before[key] == after[key], f"grammar:{key}-changed", lambda: {"before": before[key], "after": after[key]})
